@@ -59,6 +59,23 @@ def generate(g, tier):
     for n in ([300, 3000] if tier == 'quick' else [300, 3000, 10000]):
         text = '\n'.join(f'IF TRUE\n    REPEAT 1\n        STRING s{i}' for i in range(n))
         cases.append(dict(op='compile', timeout=120, src=dict(text=text), opts=dict(stack_limit=5), meta=dict(family='sequential', exp='ok', nlines=n)))
+    # loops of every kind in a row, finishing in every way (condition false at once, after iterations, by BREAKLOOP), at top level
+    # and inside a block followed by another block
+    for L in (5, 6, 20):
+        n = L + 4
+        for shape in ('while-false', 'while-runs', 'while-break', 'repeat-0', 'mixed', 'in-block'):
+            ls = []
+            for i in range(n):
+                if shape == 'while-false': ls += [f'WHILE FALSE', '    STRING never']
+                elif shape == 'while-runs': ls += [f'WHILE w{i},w{i}<2', '    STRING x']
+                elif shape == 'while-break': ls += ['WHILE TRUE', '    BREAKLOOP']
+                elif shape == 'repeat-0': ls += ['REPEAT 0', '    STRING never']
+                elif shape == 'mixed': ls += [['WHILE FALSE', f'WHILE m{i},m{i}<1', 'REPEAT 1', 'IF TRUE'][i % 4], '    PASS']
+                else: ls += ['IF TRUE', f'    WHILE b{i},b{i}<1', '        PASS', '    IF TRUE', '        PASS']
+            _, _, deep = nest('if', L - 1, '    ')
+            cases.append(dict(op='compile', src=dict(text='\n'.join(ls) + '\n' + deep), opts=dict(stack_limit=L), meta=dict(family='sequential-' + shape, L=L, exp='ok-tail')))
+        files = {'p/main.txt': ('START empty\nSTARTENV empty\n' * n) + nest('if', L - 1, '    ')[2], 'p/empty.txt': ''}
+        cases.append(dict(op='compile_file', file='p/main.txt', files=files, opts=dict(stack_limit=L), meta=dict(family='sequential-empty-import', L=L, exp='ok-tail')))
     # imports and calls that follow one another consume no depth either: L+3 of them, then a nest of the deepest legal depth
     for L in ([5, 6, 20] if tier == 'quick' else [5, 6, 7, 20, 50, 200]):
         for kw in ('START', 'STARTENV', 'STARTCODE', 'RUN'):
